@@ -70,7 +70,8 @@ def ref_entity_map(cell, dim, ent, Xe):
     """Points of the reference entity -> points of the reference cell (v0 + sum (v_j - v0) X_j)."""
     g = ref_geometry(cell)
     vs = [g[i] for i in ref_topology(cell)[dim][ent]]
-    Xe = np.asarray(Xe, dtype=float).reshape(-1, dim)
+    Xe = np.asarray(Xe, dtype=float)
+    Xe = Xe.reshape(Xe.shape[0], 0) if dim == 0 else Xe.reshape(-1, dim)
     out = np.tile(vs[0], (Xe.shape[0], 1))
     for j in range(dim):
         out = out + np.outer(Xe[:, j], vs[j + 1] - vs[0])
@@ -406,6 +407,14 @@ class Pt:
     def vol(self, r=None):
         return self.s.cells[self._side(r)].volume()
 
+    def facet_edge_lengths(self, r=None):
+        """physical lengths of the edges of the integration facet, seen from side r"""
+        k = self._side(r)
+        c = self.s.cells[k]
+        topo = ref_topology(c.cell)
+        fv = set(topo[c.tdim - 1][self.s.entities[k]])
+        return [float(np.linalg.norm(c.V[e[1]] - c.V[e[0]])) for e in topo[1] if set(e) <= fv]
+
 
 class OracleSetup:
     """Everything the oracle needs for one (geometry, entity) configuration."""
@@ -504,6 +513,10 @@ class FormCase:
         self.coefs = d.get("coefs", [])
         self.fn = d["fn"]
         self.tags = d.get("tags", ())
+        # coefficients of the oracle that actually occur in the form (FFCx packs only those, in count order)
+        uc = d.get("ufl_coefs")
+        present = set(self.form.coefficients())
+        self.present = list(range(len(self.coefs))) if uc is None else [k for k, c in enumerate(uc) if c in present]
         return self.form
 
     def a_shape(self):
@@ -532,8 +545,9 @@ def c02_cases(tier):
     cases = []
     simplices = ("interval", "triangle", "tetrahedron")
     deg = {"interval": 2, "triangle": 2, "quadrilateral": 2, "tetrahedron": 2, "hexahedron": 1, "prism": 1}
-    if tier == "quick":
-        deg["tetrahedron"] = 1
+    if tier != "quick":
+        deg["hexahedron"] = 2
+        deg["prism"] = 2
     for cell in ("interval", "triangle", "quadrilateral", "tetrahedron", "hexahedron", "prism"):
         d = deg[cell]
 
@@ -566,6 +580,26 @@ def c02_cases(tier):
                             + CellVolume(m) * v * ds, test=e, coefs=[e],
                             fn=lambda P: (P.area() * P.f(0) + P.n()[0] * (P.gf(0) @ P.n()) + P.vol()) * P.v())
             cases.append(FormCase(f"ext_geom_{cell}", cell, "exterior_facet", ext_geom))
+
+        if cell in ("tetrahedron", "hexahedron"):
+            def ext_edgelen(m, cell=cell):
+                from ufl import MaxFacetEdgeLength, MinFacetEdgeLength
+                e = lag(cell, 1)
+                V = FunctionSpace(m, e.ufl)
+                v = TestFunction(V)
+                return dict(form=MinFacetEdgeLength(m) * v * ds + 2 * MaxFacetEdgeLength(m) * v * ds, test=e,
+                            fn=lambda P: (min(P.facet_edge_lengths()) + 2 * max(P.facet_edge_lengths())) * P.v())
+            cases.append(FormCase(f"ext_edgelen_{cell}", cell, "exterior_facet", ext_edgelen))
+
+            def int_edgelen(m, cell=cell):
+                from ufl import MaxFacetEdgeLength, MinFacetEdgeLength
+                e = lag(cell, 1)
+                V = FunctionSpace(m, e.ufl)
+                v = TestFunction(V)
+                return dict(form=MinFacetEdgeLength(m)("-") * v("+") * dS + MaxFacetEdgeLength(m)("+") * v("-") * dS,
+                            test=e,
+                            fn=lambda P: min(P.facet_edge_lengths("-")) * P.v("+") + max(P.facet_edge_lengths("+")) * P.v("-"))
+            cases.append(FormCase(f"int_edgelen_{cell}", cell, "interior_facet", int_edgelen))
 
         if cell == "prism":
             continue  # interior-facet integrals on prisms are rejected by FFCx (UnboundLocalError)
@@ -610,6 +644,79 @@ def c02_cases(tier):
                 return dict(form=form, coefs=[e, e1], fn=fn)
             cases.append(FormCase(f"int_functional_{cell}", cell, "interior_facet", int_functional))
     return cases
+
+
+def generated_cases(seed, n):
+    """Seeded random facet forms (thorough tier): sums of 2-3 terms `c * S * Arg` where S is a scalar factor of
+    coefficients/normals with random restrictions and Arg an argument factor; each term is built in UFL and as a
+    numpy closure at the same time.  Names carry the seed and index so that they replay."""
+    from ufl import Coefficient, FacetNormal, FunctionSpace, TestFunction, TrialFunction, dS, ds, grad, inner
+    out = []
+    for i in range(n):
+        pr = random.Random(seed * 7919 + i)
+        cell = pr.choice(["interval", "triangle", "quadrilateral", "tetrahedron", "hexahedron"])
+        itype = pr.choice(["exterior_facet", "interior_facet", "interior_facet"])
+        rank = pr.choice([0, 1, 1, 2])
+        deg = 1 if cell == "hexahedron" else pr.choice([1, 2])
+        nterms = pr.choice([2, 3])
+        spec = []
+        for _ in range(nterms):
+            spec.append(dict(c=pr.choice([0.5, -1.0, 2.0, 1.5, -0.25]), s=pr.randrange(6), a=pr.randrange(2),
+                             r=[pr.choice("+-") for _ in range(4)]))
+
+        def build(m, cell=cell, itype=itype, rank=rank, deg=deg, spec=spec):
+            e, e1 = lag(cell, deg), lag(cell, 1)
+            V, W = FunctionSpace(m, e.ufl), FunctionSpace(m, e1.ufl)
+            u, v, f, g = TrialFunction(V), TestFunction(V), Coefficient(V), Coefficient(W)
+            n = FacetNormal(m)
+            interior = itype == "interior_facet"
+
+            def R(x, r):
+                return x(r) if interior else x
+
+            def rr(r):
+                return r if interior else None
+            form = None
+            fns = []
+            for t in spec:
+                r0, r1, r2, r3 = t["r"]
+                k = t["s"]
+                if k == 0:
+                    S, fs = R(f, r0), (lambda P, r0=r0: P.f(0, rr(r0)))
+                elif k == 1:
+                    S, fs = R(g, r0), (lambda P, r0=r0: P.f(1, rr(r0)))
+                elif k == 2:
+                    S, fs = R(f, r0) * R(g, r1), (lambda P, r0=r0, r1=r1: P.f(0, rr(r0)) * P.f(1, rr(r1)))
+                elif k == 3:
+                    S = inner(R(grad(f), r0), R(n, r1))
+                    fs = lambda P, r0=r0, r1=r1: P.gf(0, rr(r0)) @ P.n(rr(r1))  # noqa: E731
+                elif k == 4:
+                    S, fs = R(n, r0)[0] * R(g, r1), (lambda P, r0=r0, r1=r1: P.n(rr(r0))[0] * P.f(1, rr(r1)))
+                else:
+                    S = R(f, r0) * R(f, r1)
+                    fs = lambda P, r0=r0, r1=r1: P.f(0, rr(r0)) * P.f(0, rr(r1))  # noqa: E731
+                if rank == 0:
+                    Arg, fa = 1.0, (lambda P: np.array(1.0))
+                elif rank == 1:
+                    if t["a"] == 0:
+                        Arg, fa = R(v, r2), (lambda P, r2=r2: P.v(rr(r2)))
+                    else:
+                        Arg = inner(R(grad(v), r2), R(n, r3))
+                        fa = lambda P, r2=r2, r3=r3: P.gv(rr(r2)) @ P.n(rr(r3))  # noqa: E731
+                else:
+                    if t["a"] == 0:
+                        Arg = R(u, r2) * R(v, r3)
+                        fa = lambda P, r2=r2, r3=r3: np.outer(P.v(rr(r3)), P.u(rr(r2)))  # noqa: E731
+                    else:
+                        Arg = inner(R(grad(u), r2), R(n, r2)) * R(v, r3)
+                        fa = lambda P, r2=r2, r3=r3: np.outer(P.v(rr(r3)), P.gu(rr(r2)) @ P.n(rr(r2)))  # noqa: E731
+                term = t["c"] * S * Arg * (dS if interior else ds)
+                form = term if form is None else form + term
+                fns.append(lambda P, c=t["c"], fs=fs, fa=fa: c * fs(P) * fa(P))
+            return dict(form=form, test=e if rank >= 1 else None, trial=e if rank == 2 else None, coefs=[e, e1],
+                        ufl_coefs=[f, g], fn=lambda P: sum(fn(P) for fn in fns))
+        out.append(FormCase(f"gen_{seed}_{i}_{cell}_{itype}_r{rank}", cell, itype, build))
+    return out
 
 
 def entity_configs(case, rng, tier):
@@ -665,20 +772,22 @@ def run_case(chk, case, form, mod, rng, tier, ncfg_hist):
             ft = facet_type(cell, ents[0])
             integral = [k for k in integrals if int(k.domain) == int(ctype(ft))][0]
         x = np.concatenate([c.coordinate_dofs().reshape(-1) for c in cells])
-        A = call(mod, integral, asize, pack_w(w, width), x, ents, perm)
+        wk = pack_w([w[k] for k in case.present], width)
+        A = call(mod, integral, asize, wk, x, ents, perm)
         scale = max(1.0, float(np.abs(ref).max()), float(np.abs(A).max()))
         err = float(np.abs(A - ref).max()) / scale
         worst = max(worst, err)
         key = f"{case.name}:{'/'.join(map(str, ents))}"
         chk.case(kind="oracle", key=key if np.abs(ref).max() > 1e-12 else None,
-                 sample={"case": case.name, "entities": list(ents), "perm": perm, "rel_err": err})
+                 sample={"case": case.name, "entities": list(ents), "perm": perm, "rel_err": err}
+                 if (width == 2 and ents[0] != ents[1] and rng.integers(0, 8) == 0) else None)
         ncfg_hist[cell] = ncfg_hist.get(cell, 0) + 1
         if not (err <= 1e-10):
             chk.violation(
                 key=f"oracle:{case.name}",
                 what=f"kernel {case.name} differs from the integral over entity {ents} (rel err {err:.3e})",
                 payload={"case": case.name, "cell": cell, "integral_type": case.itype, "entities": list(ents),
-                         "perm": perm, "coordinate_dofs": x.tolist(), "w": pack_w(w, width).tolist(),
+                         "perm": perm, "coordinate_dofs": x.tolist(), "w": wk.tolist(),
                          "kernel_A": A.tolist(), "oracle_A": ref.tolist(), "seed": chk.seed})
     return worst
 
@@ -904,11 +1013,50 @@ def corr_tables(chk, d, forms_by_name):
     chk.notes["table_blocks_compared"] = total
 
 
+def corr_ir_offsets(chk, d, forms_by_name):
+    """Offsets present in the real IR of interior-facet integrals vs the model: the '-' table offset of an
+    argument/coefficient of a scalar element is the element dimension (`aIndex1 n 1 0`), coefficient k starts at
+    `wIndex dims k 0 0`."""
+    for name, forms in forms_by_name:
+        try:
+            _, ir = pipeline.compute(forms)
+        except Exception:  # noqa: BLE001
+            continue
+        for iir in ir.integrals:
+            ex = iir.expression
+            if ex.integral_type != "interior_facet":
+                continue
+            coefs = sorted(ex.coefficient_offsets.items(), key=lambda kv: kv[1])
+            dims = [int(c.ufl_function_space().ufl_element().dim) for c, _ in coefs]
+            for k, (c, off) in enumerate(coefs):
+                model = int(d.ask(f"(windex ({' '.join(map(str, dims))}) {k} 0 0)"))
+                chk.case(kind="ir_w_offset", key=f"{name}:{k}")
+                if model != int(off):
+                    chk.disagree("coefficient offset in w", {"form": name, "coefficient": k, "dims": dims,
+                                                             "impl": int(off), "model": model})
+            for (_dom, _rule), integrand in ex.integrand.items():
+                F = integrand["factorization"]
+                for _i, nd in F.nodes.items():
+                    mt, tr = nd.get("mt"), nd.get("tr")
+                    if mt is None or tr is None or not isinstance(mt.terminal, ufl.classes.FormArgument):
+                        continue
+                    el = mt.terminal.ufl_function_space().ufl_element()
+                    if tr.block_size != 1 or el.reference_value_size != 1 or tr.offset is None:
+                        continue
+                    r = 1 if mt.restriction == "-" else 0
+                    model = int(d.ask(f"(aindex1 {int(el.dim)} {r} 0)"))
+                    chk.case(kind="ir_dof_offset", key=f"{name}:{type(mt.terminal).__name__}:{mt.restriction}:{int(el.dim)}")
+                    if model != int(tr.offset):
+                        chk.disagree("'-' dof offset of a table reference", {"form": name, "restriction": mt.restriction,
+                                                                             "element_dim": int(el.dim),
+                                                                             "impl": int(tr.offset), "model": model})
+
+
 def corr_layout(chk, d, rng):
     """Macro layout observed on compiled kernels vs the model's index functions:
     u(ru)*v(rv)*dS touches exactly the (rv, ru) block of A; a functional of f_k(r) is sensitive to
     exactly w[k][r][·]; CellVolume(r) is sensitive to exactly coordinate_dofs[r][·][<gdim]."""
-    from ufl import CellVolume, Coefficient, FunctionSpace, TestFunction, TrialFunction, dS
+    from ufl import CellVolume, Coefficient, FacetArea, FunctionSpace, TestFunction, TrialFunction, dS
     cell = "triangle"
     m = mesh(cell)
     e2, e1 = lag(cell, 2), lag(cell, 1)
@@ -926,7 +1074,8 @@ def corr_layout(chk, d, rng):
             forms.append(co(r) * co(r) * dS + 1e-300 * f("+") * g("+") * dS)
             meta.append(("w", k, r))
     for r in "+-":
-        forms.append(CellVolume(m)(r) * dS)
+        # ∫ CellVolume(r)/FacetArea dS = CellVolume(r): depends on the coordinates of side r only
+        forms.append(CellVolume(m)(r) / FacetArea(m)("+") * dS)
         meta.append(("x", r))
     n, mm = e2.dim, e1.dim
     dims = [e2.dim, e1.dim]
@@ -1061,7 +1210,12 @@ def run(chk):
     ]
     # (a) obligations over regenerated tables
     chk.notes["refcells_rewritten"] = extract_geom.regenerate()
-    chk.lean("FfcxProofs.C02", THEOREMS)
+    L = lean.LEAN
+    chk.lean("FfcxProofs.C02", THEOREMS, extra_files=[
+        L / "FfcxProofs/Lemmas/Geom.lean", L / "FfcxModel/Geometry/RefCell.lean", L / "FfcxModel/IR/Perm.lean",
+        L / "FfcxModel/Generated/RefCells.lean"])
+    # value read = basis function at the entity map of the permuted point
+    chk.lean("FfcxProofs.C03", ["Ffcx.C03.table_access_spec"], extra_files=[L / "FfcxProofs/Lemmas/GeomIndep.lean"])
     chk.exhaustive = True  # the finite reference-cell tables are covered completely by `decide`
 
     # (b) correspondence
@@ -1076,9 +1230,12 @@ def run(chk):
             except Exception as ex:  # noqa: BLE001
                 chk.notes.setdefault("corpus_build_failed", []).append(f"{nm}: {type(ex).__name__}")
         cases = c02_cases(chk.tier)
+        if chk.tier != "quick":
+            cases += generated_cases(chk.seed, 72)
         for c in cases:
             forms_by_name.append((c.name, [c.make()]))
         corr_tables(chk, d, forms_by_name)
+        corr_ir_offsets(chk, d, forms_by_name)
         corr_layout(chk, d, rng)
 
     # (c) search
@@ -1086,13 +1243,26 @@ def run(chk):
     worst = {}
     with pipeline.TmpCache() as cache:
         forms = [c.make() for c in cases]
-        compiled, mod, _ = pipeline.jit_forms(forms, cache)
-        chk.programs += len(forms)
-        reps = 1 if chk.tier == "quick" else 6
-        for c, form in zip(cases, compiled):
-            for _ in range(reps):
-                w = run_case(chk, c, form, mod, rng, chk.tier, hist)
+        try:
+            compiled, mod, _ = pipeline.jit_forms(forms, cache)
+            units = [(c, f, mod) for c, f in zip(cases, compiled)]
+        except Exception as ex:  # noqa: BLE001 - a rejected form must not hide the others
+            chk.notes["batch_compile_failed"] = f"{type(ex).__name__}: {str(ex)[:200]}"
+            units = []
+            for c in cases:
+                try:
+                    (f1,), m1, _ = pipeline.jit_forms([c.make()], cache)
+                    units.append((c, f1, m1))
+                except Exception as ex1:  # noqa: BLE001
+                    chk.notes.setdefault("rejected_forms", []).append(f"{c.name}: {type(ex1).__name__}")
+        chk.programs += len(units)
+        reps = 2 if chk.tier == "quick" else 8
+        for c, form, m in units:
+            for _ in range(reps if not c.name.startswith("gen_") else 2):
+                w = run_case(chk, c, form, m, rng, chk.tier, hist)
                 worst[c.name] = max(worst.get(c.name, 0.0), w)
     chk.notes["oracle_configs_per_cell"] = hist
     chk.notes["oracle_worst_rel_err"] = {k: float(f"{v:.3e}") for k, v in worst.items()}
     probe_rfev(chk, rng)
+    if chk.tier != "quick":
+        chk.leanchecker(["FfcxProofs.Lemmas.Geom", "FfcxProofs.C02"])
